@@ -45,11 +45,12 @@ func decodeAddresses(s string) ([]common.Address, error) {
 		return res, nil
 	}
 	for _, a := range strings.Split(s, ",") {
-		if !common.IsHexAddress(a) {
+		addr, err := decodeAddress(a)
+		if err != nil {
 			return nil, errors.Errorf("malformed address: %q", s)
 		}
 
-		res = append(res, common.HexToAddress(a))
+		res = append(res, addr)
 	}
 	return res, nil
 }
